@@ -263,3 +263,7 @@ def check_raw(ctx, tu, info):
                 a = [path(f, f.strip_all_casts(x)) for x in f.call_args(ind[0])]
                 okm = len(a) == 2 and root_var_id(a[0]) == other and 'buffer' in fields_in(a[0]) and a[1][0] == 'this' and 'buffer' in fields_in(a[1])
             ctx.ob('C08.O', f, 'moving an AnyData move-constructs the held object from the source buffer into its own buffer, with the same table', bool(okf and okm))
+            srcw = [w for w in info.writes(f) if root_var_id(w['path']) == other and w['how'] in ('assign', 'call:reset', '++', '--')]
+            ctx.ob('C08.O', f, 'the moved-from AnyData keeps its table, so its destructor still destroys the moved-from object left in its buffer', not srcw,
+                   detail='write to %s at %s: the source no longer destroys the (moved-from) object it still holds - that object is never destroyed'
+                          % (', '.join(pstr(w['path']) for w in srcw), ', '.join(f.nloc(w['node']) for w in srcw)))
